@@ -8,6 +8,7 @@ import (
 	"encoding/binary"
 	"io"
 	"math"
+	"reflect"
 	"time"
 
 	"github.com/gopcua/opcua/errors"
@@ -23,6 +24,10 @@ type Buffer struct {
 	buf []byte
 	pos int
 	err error
+
+	// level is the nesting level of the values which are
+	// decoded from this buffer. See MaxNestingLevel.
+	level int
 }
 
 func NewBuffer(b []byte) *Buffer {
@@ -166,10 +171,13 @@ func (b *Buffer) ReadStruct(r interface{}) {
 	var n int
 	var err error
 	switch x := r.(type) {
+	case nestedDecoder:
+		n, err = x.decodeNested(b.buf[b.pos:], b.level)
 	case BinaryDecoder:
 		n, err = x.Decode(b.buf[b.pos:])
 	default:
-		n, err = Decode(b.buf[b.pos:], r)
+		val := reflect.ValueOf(r)
+		n, err = decode(b.buf[b.pos:], val, val.Type().String(), b.level)
 	}
 	if err != nil {
 		b.err = err
